@@ -99,6 +99,11 @@ func (h VerifHandler) Delete(ctx context.Context, obj client.Object, q *VerifQue
 	h.h.Delete(ctx, event.TypedDeleteEvent[client.Object]{Object: obj}, q)
 }
 
+// DeleteUnknown calls hdlr.Delete with an event whose final state is unknown (a tombstone found by a relist).
+func (h VerifHandler) DeleteUnknown(ctx context.Context, obj client.Object, q *VerifQueue) {
+	h.h.Delete(ctx, event.TypedDeleteEvent[client.Object]{Object: obj, DeleteStateUnknown: true}, q)
+}
+
 // Generic calls hdlr.Generic.
 func (h VerifHandler) Generic(ctx context.Context, obj client.Object, q *VerifQueue) {
 	h.h.Generic(ctx, event.TypedGenericEvent[client.Object]{Object: obj}, q)
